@@ -265,9 +265,14 @@ def equivalence_shapes():
                       "payload and written value symbolic", "ref and ref_mut accessors exist and act on the payload whatever the order inside the attribute",
                       ["impl/src/unwrap.rs::expand", "impl/src/utils.rs::parse_punctuated_nested_meta"], quick=False))
     tf = ["#[derive(derive_more::TryFrom, Clone, Copy, PartialEq)]\n#[repr(u8)]\n#[try_from(repr)]\npub enum E { A = 1, B = 5, C }",
-          "#[derive(derive_more::TryFrom, Clone, Copy, PartialEq)]\n#[try_from(repr)]\n#[repr(u8)]\npub enum E { A = 1, B = 5, C }"]
+          "#[derive(derive_more::TryFrom, Clone, Copy, PartialEq)]\n#[try_from(repr)]\n#[repr(u8)]\npub enum E { A = 1, B = 5, C }",
+          # the integer type at each position of a #[repr(..)] list, and split over two #[repr] attributes (seed C17-repr-int-reset-by-later-arg)
+          "#[derive(derive_more::TryFrom, Clone, Copy, PartialEq)]\n#[try_from(repr)]\n#[repr(u8, align(2))]\npub enum E { A = 1, B = 5, C }",
+          "#[derive(derive_more::TryFrom, Clone, Copy, PartialEq)]\n#[try_from(repr)]\n#[repr(align(2), u8)]\npub enum E { A = 1, B = 5, C }",
+          "#[derive(derive_more::TryFrom, Clone, Copy, PartialEq)]\n#[repr(align(2))]\n#[try_from(repr)]\n#[repr(u8)]\npub enum E { A = 1, B = 5, C }",
+          "#[derive(derive_more::TryFrom, Clone, Copy, PartialEq)]\n#[repr(u8,)]\n#[repr(align(2))]\n#[try_from(repr)]\npub enum E { A = 1, B = 5, C }"]
     out.append(family("try_from_repr_order", tf,
-                      harness("        let n: u8 = kani::any();\n", lambda i: "m%d::E::try_from(n).ok().map(|v| v as u8)" % i, 2),
+                      harness("        let n: u8 = kani::any();\n", lambda i: "m%d::E::try_from(n).ok().map(|v| v as u8)" % i, len(tf)),
                       "n: u8 symbolic (all 256 values)", "TryFrom<u8> answers the same whether #[repr] precedes or follows #[try_from(repr)]",
                       ["impl/src/try_from.rs::expand", "impl/src/utils.rs::attr::ReprInt"]))
     return out
